@@ -13,15 +13,15 @@ def canonical(root):
             if stat.S_ISDIR(st.st_mode):
                 if n in ('.git', '.svn', '.portage-cache'): continue
                 out.append(('d', r, stat.S_IMODE(st.st_mode))); walk(p, r)
+            elif n == 'BaseDirList.txt': continue            # (the file ignore list applies to everything that is not a directory)
             elif stat.S_ISLNK(st.st_mode): out.append(('l', r, os.readlink(p)))
             elif stat.S_ISREG(st.st_mode):
-                if n == 'BaseDirList.txt': continue
                 out.append(('f', r, stat.S_IMODE(st.st_mode), open(p, 'rb').read()))
             else: out.append(('o', r, stat.S_IFMT(st.st_mode), stat.S_IMODE(st.st_mode)))
     walk(root, '')
     return out
 
-NAMES = ['a', 'b', 'mike', 'sub', 'data', 'z', 'a.txt', 'sub2', 'é', 'x y']
+NAMES = ['a', 'b', 'mike', 'sub', 'data', 'z', 'a.txt', 'sub2', 'é', 'x y', '.git', '.svn', 'BaseDirList.txt', '.portage-cache']      # incl. the names of the ignore lists, as files, links and directories
 
 def random_tree(rnd, root, outside):
     os.makedirs(root)
